@@ -9,19 +9,23 @@ THEOREMS = [
     "C13.late_counted_iff_below",
     "C13.conservation",
     "C13.history_strictly_increasing",
+    "C13.periodic_watermark_le_max",
+    "C13.periodic_step",
 ]
 N = {"quick": 3000, "thorough": 60000}
 EXHAUSTIVE = {"quick": False, "thorough": False}
 RULE = ("cases = corpus + every timestamp sequence of length <=4 over 0..3 (thorough: <=5 over 0..4) under every "
         "(watermark strategy, late strategy) pair + N random sequences of length 1..12 over domains 4/8/16/40 "
-        "(sorted, reversed, shuffled). Each case is run on WatermarkedStream (real code) and on the Lean model; "
+        "(sorted, reversed, shuffled) + a Periodic family (intervals 0 / small / one hour; injected clock readings that stand "
+        "still, advance by interval-1 / interval / interval+1, jump and run backwards). Each case is run on WatermarkedStream (real code) and on the Lean model; "
         "observations after every add_event are diffed and the Spec predicate C13.runOk is evaluated on the "
         "implementation's observations. A case is non-trivial when at least one event was late; distinct = distinct case text.")
 TRUSTED = [
     "Lean 4.33 kernel; axioms of every property theorem within {propext, Classical.choice, Quot.sound} (audited each run)",
     "hand-written model RreModel/C13/Model.lean tied to src/streaming/watermark.rs by the correspondence check only (differential testing)",
     "harness/src/bin/c13.rs, Driver/C13.lean parsing/printing glue, check.py diff",
-    "Periodic watermark strategy (wall-clock driven) is outside the model",
+    "Periodic watermark strategy: the processing-time clock is an input of the model (one reading per offered event, any values); "
+    "the harness injects the readings through the cfg(rre_verif) hook watermark::verif_clock (whole milliseconds)",
 ]
 ASSUMPTIONS = [
     "timestamps are u64 milliseconds modelled as Nat; saturating_sub = Nat subtraction",
@@ -40,5 +44,5 @@ LEVEL_TEXT = ("Lean 4 theorems (kernel-checked, unbounded: every strategy pair, 
               "src/streaming/watermark.rs by a correspondence check (exhaustive short sequences + random longer ones; model vs "
               "implementation observations after every add_event) and by evaluating the same Spec predicate on the implementation's observations.")
 LEVEL_NOTE = ("Trusted: Lean kernel + {propext, Classical.choice, Quot.sound}; hand-written model tied to the code by differential "
-              "testing only; harness/driver glue; Periodic (wall-clock) strategy not modelled.")
+              "testing only; harness/driver glue; Periodic strategy modelled with the clock readings as inputs (injected through a cfg(rre_verif) hook).")
 DESIGN_REF = "§6 C13"
